@@ -1,10 +1,110 @@
 (* C08 — sensor smoothing stays within observed readings, converges, ignores failed reads.
-   This file holds only the property theorems; each is closed by [exact]. *)
-From Coq Require Import ZArith List Floats.
-From F2G Require Import Go.GoFloat Model.Util Model.Sensor Proofs.Sensor.
+   This file holds only the property theorems; each is closed by [exact].
+   Model: Model/Sensor.v (GetValue result classes of the hwmon / file / cmd backends after the
+   D9 repairs, updateSensor, seeding), Model/Util.v upd_avg (= UpdateSimpleMovingAvg, tied to the
+   source by Proofs/LeafTie.v).  Floats are binary64 (Coq primitive floats). *)
+From Coq Require Import ZArith List Floats Reals.
+From F2G Require Import Go.GoFloat Model.Util Model.Sensor Proofs.SensorFloat Proofs.Sensor.
 Import ListNotations.
 Open Scope Z_scope.
 
+(* A poll whose read fails, or whose command prints NaN / +-Inf, leaves the smoothed value
+   unchanged -- every backend, every window size, every average. *)
 Theorem C08_fault_skips : forall k n avg r, fault r -> poll k n avg r = avg.
 Proof. exact fault_skips. Qed.
 Print Assumptions C08_fault_skips.
+
+(* Never poisoned: whatever the read does (fail, garbage, nan, inf, or a value within the
+   magnitude guard), a finite bounded average stays finite; all window sizes >= 1. *)
+Theorem C08_not_poisoned : forall k n a r, 1 <= n < 2 ^ 63 -> boundedb a = true ->
+  (forall v, value_of k r = Some v -> boundedb v = true) ->
+  is_finite (poll k n a r) = true.
+Proof. exact not_poisoned. Qed.
+Print Assumptions C08_not_poisoned.
+
+(* Hull: along EVERY finite reading sequence with faults anywhere, for every window size >= 1,
+   after every poll the average is finite and lies between two of {initial value, values read
+   so far}, provided the values are inside the magnitude guard [value_ok]:
+     window >= 2 : |v| <= 2^1021   (no condition at all on integer readings, see C08_int_unguarded)
+     window  = 1 : integers of magnitude below 2^52 *)
+Theorem C08_hull : forall k n init rs, 1 <= n < 2 ^ 63 ->
+  value_ok n init -> Forall (value_ok n) (values k rs) ->
+  HullRun k n [init] init rs.
+Proof. exact hull. Qed.
+Print Assumptions C08_hull.
+
+(* integer readings (hwmon / file sensors, any int64 above minInt) always satisfy the window >= 2 guard *)
+Theorem C08_int_unguarded : forall z, Z.abs z < 2 ^ 63 -> boundedb (i2f z) = true.
+Proof. exact i2f_bounded. Qed.
+Print Assumptions C08_int_unguarded.
+
+(* The unguarded statement, kept visible: it is FALSE in binary64 (recorded finding D20). *)
+Definition C08_hull_full : Prop := hull_full.
+
+Theorem C08_hull_refuted_extreme :
+  upd_avg (i2f (- 2 ^ 53)) 1 (i2f 3) = 4%float /\
+  ~ HullRun KHwmon 1 [i2f (- 2 ^ 53)] (i2f (- 2 ^ 53)) [ValZ 3] /\
+  avgs KCmd 2 (-1e308)%float [ValF 1e308%float; ValF 1%float; ValF 1%float] = [infinity; nan; nan] /\
+  ~ HullRun KCmd 2 [(-1e308)%float] (-1e308)%float [ValF 1e308%float; ValF 1%float; ValF 1%float] /\
+  ~ C08_hull_full.
+Proof. exact hull_refuted_extreme. Qed.
+Print Assumptions C08_hull_refuted_extreme.
+
+(* Convergence.
+   (a) What is proved of the binary64 code (partial): with window >= 2 and inside the guard, one
+       poll moves the average toward the reading, never past it and never away from it -- so
+       under a constant reading the distance never grows and the side never changes.
+       MISSING for the full statement: the factor (1 - 1/n) with an explicit rounding slack
+       (about 2^-51 * max(|x|,|avg|) + 2^-1074 per poll); it is checked on the implementation's own
+       averages by the observer [contractsb] of Drv/Sensor.v but not yet proved for all inputs. *)
+Theorem C08_converges_partial : forall k n a r v, 2 <= n < 2 ^ 63 ->
+  boundedb a = true -> value_of k r = Some v -> boundedb v = true ->
+  (fle a (poll k n a r) = true /\ fle (poll k n a r) v = true) \/
+  (fle v (poll k n a r) = true /\ fle (poll k n a r) a = true).
+Proof. exact between_step. Qed.
+Print Assumptions C08_converges_partial.
+
+(* (b) The IDEALISATION (exact real arithmetic, no rounding -- a statement about the formula
+       avg + (x - avg)/n, not about the code's floats): the distance to a constant reading
+       shrinks by exactly the factor (1 - 1/n) per poll, and 0 <= 1 - 1/n < 1. *)
+Theorem C08_converges_ideal : forall n a x k, 1 <= n ->
+  (x - iter_ideal n a x k = (1 - 1 / IZR n) ^ k * (x - a))%R.
+Proof. exact converges_ideal. Qed.
+Print Assumptions C08_converges_ideal.
+
+Theorem C08_converges_ideal_factor : forall n, 1 <= n -> (0 <= 1 - 1 / IZR n < 1)%R.
+Proof. exact ideal_factor. Qed.
+
+(* window 1 inside the guard: the average IS the last reading (distance 0 after one poll) *)
+Theorem C08_window_one : forall a x, sint a -> sint x -> fin (upd_avg a 1 x) /\ R_of (upd_avg a 1 x) = R_of x.
+Proof. exact step_one. Qed.
+Print Assumptions C08_window_one.
+
+(* What D9 was: the model of the code BEFORE the two repairs violates C08_fault_skips. *)
+Theorem C08_d9_was_violated :
+  poll_d9 KFile 10 50000%float ReadErr = 45000%float /\
+  poll_d9 KCmd 10 45.5%float (ValF nan) = nan /\ poll_d9 KCmd 10 nan (ValF 46%float) = nan /\
+  poll KFile 10 50000%float ReadErr = 50000%float /\ poll KCmd 10 45.5%float (ValF nan) = 45.5%float.
+Proof. exact d9_was_violated. Qed.
+
+(* ---- non-vacuity: the hypotheses are met by ordinary states ---- *)
+Example C08_nonvacuous_hull :
+  let rs := [ValZ 45000; ReadErr; ValZ 47000; ValZ 46500; ReadErr; ValZ 52000] in
+  value_ok 10 (i2f 44000) /\ Forall (value_ok 10) (values KFile rs) /\
+  value_ok 1 (i2f 44000) /\ Forall (value_ok 1) (values KHwmon rs) /\
+  avgs KFile 10 (i2f 44000) rs = [44100; 44100; 44390; 44601; 44601; 45340.9]%float.
+Proof.
+  cbv zeta. split; [reflexivity|]. split; [repeat constructor|].
+  split; [exists 44000; split; [reflexivity|reflexivity]|]. split.
+  - cbn. repeat constructor; [exists 45000|exists 47000|exists 46500|exists 52000]; split; reflexivity.
+  - vm_compute. reflexivity.
+Qed.
+
+Example C08_nonvacuous_cmd :
+  let rs := [ValF 45.5%float; ValF nan; ValF 46.25%float; ValF infinity; ReadErr; ValF 48.3%float] in
+  value_ok 5 45.3%float /\ Forall (value_ok 5) (values KCmd rs) /\ values KCmd rs = [45.5; 46.25; 48.3]%float
+  /\ fault (ValF nan) /\ fault (ValF infinity) /\ fault ReadErr.
+Proof.
+  cbv zeta. split; [reflexivity|]. split; [repeat constructor|]. split; [reflexivity|].
+  split; [right; exists nan; split; reflexivity|]. split; [right; exists infinity; split; reflexivity|]. now left.
+Qed.
